@@ -595,3 +595,18 @@ Theorem C16_pad_is_xml_whitespace : forall prefix indent,
   (forall w, PureG28.pad_ok prefix indent w -> PureG28.xml_wsb w = true) /\ (forall k, PureG28.xml_wsb (PureG28.pdg prefix indent k) = true).
 Proof. exact PureG28.pad_is_xml_whitespace. Qed.
 Print Assumptions C16_pad_is_xml_whitespace.
+
+(* ---- "the Maps file forms are the concatenation of the per-Map encodings": the file writers, translated from the current
+   sources, write exactly the string their string form returns (GenProofs/PureG37.v; the string forms: PureG12.v) *)
+From Mxj Require GenProofs.PureG13 GenProofs.PureG37.
+
+Theorem C16_xml_file_indent_code : forall (xs : list entries -> str -> str -> res str) create st mvs file prefix indent fs,
+  fn_XmlFileIndent xs create st mvs file prefix indent fs = PureG37.file_writer_spec (xs mvs prefix indent) create file fs.
+Proof. exact PureG37.xml_file_indent_code. Qed.
+Print Assumptions C16_xml_file_indent_code.
+
+Theorem C16_json_file_indent_code : forall (js : list entries -> str -> str -> list bool -> res str) create st mvs file prefix indent safe fs,
+  fn_JsonFileIndent js create st mvs file prefix indent safe fs
+  = PureG37.file_writer_spec (js mvs prefix indent [PureG13.opt_flag safe]) create file fs.
+Proof. exact PureG37.json_file_indent_code. Qed.
+Print Assumptions C16_json_file_indent_code.
